@@ -36,6 +36,9 @@ class Gen:
     # ---- names / docs
     def name(self, prefix):
         self.counter += 1
+        if prefix in ("t", "wp") and "keyword_names" not in self.excl and self.ch.bool(1, 5):
+            # type and kind names that contain a procedure prefix word (`type(pure_t3) function f()`)
+            return f"{self.ch.choice(['pure', 'module', 'elemental', 'recursive', 'impure'])}_{prefix}{self.counter}"
         return f"{prefix}{self.counter}"
 
     def opname(self):
